@@ -52,6 +52,14 @@ func (n jnode) build() any {
 		return (*int)(nil)
 	case "bytes":
 		return []byte("bt")
+	case "bytes2":
+		return []byte("bu")
+	case "map":
+		return map[string]int{"a": 1, "b": 2}
+	case "map2": // same type, same size, one key renamed
+		return map[string]int{"a": 1, "c": 2}
+	case "float2":
+		return 2.75
 	case "nil-bytes":
 		return []byte(nil)
 	case "tnil-pp": // typed nils more than one pointer level deep
@@ -99,6 +107,25 @@ type c16Case struct {
 
 // swapOperators returns a copy of n in which every operator-position entry (an Operator value, or the
 // third entry of a CONDITION row) is replaced by repl.
+// siblingValues: the same input with every multi-valued entry (bytes, maps) and every float replaced by a
+// value of the same type and size that differs inside.
+func siblingValues(n jnode) (jnode, bool) {
+	if to, ok := map[string]string{"bytes": "bytes2", "map": "map2", "float": "float2"}[n.T]; ok {
+		return jnode{T: to}, true
+	}
+	changed := false
+	out := n
+	if n.T == "list" {
+		out.Kids = make([]jnode, len(n.Kids))
+		for i, k := range n.Kids {
+			nk, ch := siblingValues(k)
+			out.Kids[i] = nk
+			changed = changed || ch
+		}
+	}
+	return out, changed
+}
+
 func swapOperators(n jnode, repl jnode) (jnode, bool) {
 	changed := false
 	out := n
@@ -368,6 +395,9 @@ func c16Run(c *Ctx, cs c16Case, count bool, neighbours ...jnode) {
 			neighbours = append(neighbours, v)
 		}
 	}
+	if v, changed := siblingValues(cs.In); changed {
+		neighbours = append(neighbours, v)
+	}
 	for _, other := range neighbours {
 		var o stackage.Stack
 		if noPanic(func() { o.Marshal(other.build().([]any)...) }) != "" || !o.IsInit() {
@@ -486,7 +516,7 @@ func c16Inputs(c *Ctx) []jnode {
 	s := func(x string) jnode { return jnode{T: "str", S: x} }
 	l := func(k ...jnode) jnode { return jnode{T: "list", Kids: k} }
 	labels := []jnode{s("AND"), s("or"), s("Not"), s("LIST"), s("basic"), s("CONDITION"), s("condition")}
-	atoms := []jnode{s("junk"), s(""), {T: "int"}, {T: "nil"}, {T: "tnil-stack"}, {T: "tnil-cond"}, {T: "tnil-int"}, {T: "tnil-pp"}, {T: "tnil-ppp"}, {T: "bytes"}, {T: "nil-bytes"}, {T: "op"}, {T: "op0"}, {T: "uop"}, {T: "uop-empty"},
+	atoms := []jnode{s("junk"), s(""), {T: "int"}, {T: "nil"}, {T: "tnil-stack"}, {T: "tnil-cond"}, {T: "tnil-int"}, {T: "tnil-pp"}, {T: "tnil-ppp"}, {T: "bytes"}, {T: "nil-bytes"}, {T: "map"}, {T: "op"}, {T: "op0"}, {T: "uop"}, {T: "uop-empty"},
 		{T: "stack"}, {T: "stack0"}, {T: "cond"}, {T: "cond0"}, {T: "float"}, {T: "bool"}}
 	// depth-1 nested lists: every label followed by 0..2 atoms, condition rows of length 1..6, and junk lists
 	var nested []jnode
@@ -507,7 +537,7 @@ func c16Inputs(c *Ctx) []jnode {
 	for _, lb := range []jnode{s("CONDITION"), s("condition")} {
 		for _, kw := range []jnode{s("kw"), {T: "int"}, {T: "nil"}, s("")} {
 			for _, op := range opPos {
-				for _, ex := range []jnode{s("v"), {T: "nil"}, l(s("OR"), s("a")), l(s("CONDITION"), s("k"), jnode{T: "op"}, s("v")), l(), {T: "stack0"}, s(""), {T: "tnil-pp"}, {T: "tnil-ppp"}, {T: "bytes"}, {T: "nil-bytes"}} {
+				for _, ex := range []jnode{s("v"), {T: "nil"}, l(s("OR"), s("a")), l(s("CONDITION"), s("k"), jnode{T: "op"}, s("v")), l(), {T: "stack0"}, s(""), {T: "tnil-pp"}, {T: "tnil-ppp"}, {T: "bytes"}, {T: "nil-bytes"}, {T: "map"}} {
 					nested = append(nested, l(lb, kw, op, ex))
 				}
 			}
